@@ -1187,6 +1187,53 @@ func (k *core) checkWatchArgsPerSource(rule string) {
 		c.check(okA && okS, rule, relName(f)+"#watch-args", call.Pos(), "the WatchArgs handed to a source's Watch is allocated in that iteration and names that source", "the WatchArgs value handed to Watch is shared between sources (allocated outside the loop) or does not name the source being watched: a report is applied to another source's slot and evicts that layer's value")
 	}
 	if n == 0 {
+		// ... or through a helper called inside Config's source loop that allocates the WatchArgs itself (fresh per
+		// call) from parameters: the receiver of Watch and the source named in the WatchArgs must then be, at
+		// Config's call site, the source of that iteration
+		for _, i := range allInstrs(f) {
+			site, ok := i.(*ssa.Call)
+			if !ok {
+				continue
+			}
+			h := staticCallee(site)
+			if h == nil || len(h.Blocks) == 0 || k.w.pkgRelOfFn(h) != "" {
+				continue
+			}
+			for _, j := range allInstrs(h) {
+				call, ok := j.(*ssa.Call)
+				if !ok || calleeFullName(call) != "("+modPath+".Watcher).Watch" {
+					continue
+				}
+				n++
+				args := call.Call.Args
+				var al *ssa.Alloc
+				if mi, ok := args[len(args)-1].(*ssa.MakeInterface); ok {
+					al, _ = mi.X.(*ssa.Alloc)
+				}
+				okA := al != nil && al.Parent() == h && !inLoop(al) && litTypeName(al) == ".watchArgs" && inLoop(site)
+				okS := false
+				if okA {
+					up := func(v ssa.Value) ssa.Value {
+						if p, ok := v.(*ssa.Parameter); ok {
+							for pi, hp := range h.Params {
+								if hp == p && pi < len(site.Call.Args) {
+									return site.Call.Args[pi]
+								}
+							}
+						}
+						return v
+					}
+					sv, recv := litField(al, "s"), call.Call.Value
+					if sv != nil {
+						a, b := up(stripConv(sv)), up(stripConv(recv))
+						okS = a == b || sameValue(a, b) || sharesRangeElem(a, b)
+					}
+				}
+				c.check(okA && okS, rule, relName(f)+"#watch-args", call.Pos(), "the helper that starts a watcher allocates its WatchArgs per call and names the source of Config's iteration", "the WatchArgs value handed to Watch is shared between sources or does not name the source being watched: a report is applied to another source's slot and evicts that layer's value")
+			}
+		}
+	}
+	if n == 0 {
 		c.bad(rule, relName(f), f.Pos(), "Config never calls Watcher.Watch")
 	}
 }
